@@ -347,8 +347,8 @@ Section Handlers.
   Lemma is_sensor_trans g sid cid g1 b : Inv orc g -> is_sensor g sid cid = Ok (g1, b) -> trans CNone g g1.
   Proof.
     intros I. unfold is_sensor.
-    match goal with |- context [negb ?r && _] => generalize r end. intro ret.
-    destruct (negb ret && cf_ge20 (g_cf g)); [|intro H; inversion H; apply trans_refl].
+    match goal with |- context [negb ?r && _ && _] => generalize r end. intro ret.
+    destruct (negb ret && node_id_ok sid && cf_ge20 (g_cf g)); [|intro H; inversion H; apply trans_refl].
     destruct (sassoc (s2p "I_PRESENTATION") (vt_internal_members (tab g))) as [ip|]; [|discriminate].
     set (m := mkMsg sid system_child_id (vt_internal (tab g)) 0 ip []).
     destruct (route_trans g m I) as [T A]. pose proof (route_cf g m) as C.
